@@ -98,6 +98,8 @@ def insert : Nat := 226
 def raw : Nat := 227
 def offset : Nat := 228
 -- free functions / associated functions
+def Arc.new : Nat := 310
+def Arc.clone : Nat := 311
 def drop : Nat := 307
 def Box.from_raw : Nat := 308
 def ptr_write : Nat := 309
@@ -257,6 +259,7 @@ inductive Expr where
   | closure (params : List Pat) (body : Expr)
   | mkStrct (fields : List (Nat × Expr))               -- struct literal `T { f: e, … }`
   | range (lo hi : Expr)                               -- `lo..hi` as a value (only `.find(|x| …)` is given a meaning)
+  | fnv (k : Nat)                                      -- a function named as a value (`.map(Arc::clone)`)
   | unknown
 inductive Stmt where
   | letS (p : Pat) (e : Expr)
@@ -439,6 +442,7 @@ def eval (S : Sem) : Nat → Env → Expr → Res
     | .unknown => .stuck
     | .brk => .brk ρ
     | .closure _ _ => .stuck
+    | .fnv k => .ok (.fn k) ρ
     | .range lo hi => match eval S fuel ρ lo with
       | .ok (.nat l) ρ' => (match eval S fuel ρ' hi with
         | .ok (.nat h) ρ'' => .ok (.ctor N.range [.nat l, .nat h]) ρ''
